@@ -292,8 +292,8 @@ func TestC13Conc(t *testing.T) {
 			// equal configurations in several goroutines have mass: shared
 			// state would most likely be keyed by configuration
 			var cfg PCfg
-			if i > 0 && rapid.Bool().Draw(t, "sameCfg") {
-				cfg = c.Parsers[i-1].Cfg
+			if len(c.Parsers) > 0 && rapid.Bool().Draw(t, "sameCfg") {
+				cfg = c.Parsers[len(c.Parsers)-1].Cfg
 				kind = cfg.Kind
 			} else {
 				cfg = genPCfg(t, kind, 200)
@@ -335,7 +335,11 @@ func TestC13Conc(t *testing.T) {
 		}
 		cl := []string{"concurrent", fmt.Sprintf("goroutines:%d", (len(c.Parsers)+len(c.Decoders))/4*4)}
 		st.eval(cl, len(c.Parsers) >= 3 && matches > 0 && len(kinds) >= 2, hashJSON(c), "conc", func() any {
-			return map[string]any{"parsers": len(c.Parsers), "decoders": len(c.Decoders), "first_parser": c.Parsers[0]}
+			sample := map[string]any{"parsers": len(c.Parsers), "decoders": len(c.Decoders)}
+			if len(c.Parsers) > 0 {
+				sample["first_parser"] = c.Parsers[0]
+			}
+			return sample
 		})
 	})
 	if dir := os.Getenv("VERIF_FAIL_DIR"); dir != "" {
@@ -349,6 +353,14 @@ func init() {
 			Parsers *json.RawMessage `json:"parsers"`
 		}
 		_ = json.Unmarshal(raw, &probe)
+		if isWrapCase(raw) {
+			var c WrapCase
+			if err := json.Unmarshal(raw, &c); err != nil {
+				return "", false, err
+			}
+			msg, bad, _, err := checkWrapReset(c)
+			return msg, bad, err
+		}
 		if probe.Parsers != nil {
 			var c ConcCase
 			if err := json.Unmarshal(raw, &c); err != nil {
@@ -367,4 +379,67 @@ func init() {
 		}
 		return v.msg, v.bad, nil
 	}
+}
+
+// TestC13Wrap: a WrappedParser that was used on one reader and then Reset to
+// another one emits the same block sequence as a new wrapped parser on that
+// reader (fault-free readers; C08 owns faults).
+func TestC13Wrap(t *testing.T) {
+	st := statsFor("C13")
+	for _, kind := range kindsFromEnv(Kinds) {
+		kind := kind
+		t.Run(kind, func(t *testing.T) {
+			rapid.Check(t, func(t *rapid.T) {
+				c := genWrapCase(t, kind, 120, false, false, false)
+				pre := genText(t, "preText", 300)
+				c.Pre = &WrapPre{R: genReaderScript(t, "preRS", pre, false), Calls: rapid.IntRange(0, 12).Draw(t, "preCalls")}
+				beginCase("C13", "wrap-"+kind, func() any { return c })
+				msg, bad, x, err := checkWrapReset(c)
+				endCase()
+				if err != nil {
+					st.class("config-rejected:" + kind)
+					return
+				}
+				if bad {
+					recordFailure("C13", "wrap-"+kind, c, msg)
+					t.Fatalf("C13 violated (wrap %s): %s", kind, msg)
+				}
+				if x.dead {
+					st.abort("wrap-" + kind)
+					return
+				}
+				cl := []string{"wrap-reset", "kind:" + kind}
+				if x.nMatches > 0 {
+					cl = append(cl, "wrap-reset:matches-after-reset")
+				}
+				st.eval(cl, c.Pre.Calls > 0 && len(pre) > 8 && x.nMatches > 0, hashJSON(c), "wrap-"+kind, func() any { return c })
+			})
+		})
+	}
+}
+
+func checkWrapReset(c WrapCase) (msg string, bad bool, x *wrapExec, err error) {
+	x, err = runWrap(c, false)
+	if err != nil {
+		return "", false, x, fmt.Errorf("%w: %v", errConfigRejected, err)
+	}
+	if m, b := x.first("C16"); b {
+		return m, true, x, nil
+	}
+	if m, b := x.first("C08"); b {
+		return "after Reset: " + m, true, x, nil
+	}
+	fresh := c
+	fresh.Pre = nil
+	y, err := runWrap(fresh, false)
+	if err != nil {
+		return "", false, x, err
+	}
+	if x.dead || y.dead {
+		return "", false, x, nil
+	}
+	if ok, why := sameBlocks(x.blocks, y.blocks); !ok {
+		return "a WrappedParser that was used before Reset emits different blocks than a new one: " + why, true, x, nil
+	}
+	return "", false, x, nil
 }
